@@ -19,18 +19,29 @@
   machine or inside state definitions (no hypothesis on them at all), ALL scripts whose callbacks neither raise nor
   issue re-entrant commands (conditions may return anything, any number of times), ALL histories, queued or not.
 
-  What is false on the pinned tree: "no state is entered and afterwards exited within the processing of one
-  event" fails as soon as TWO transitions execute in one event and the later one exits what the earlier entered
-  (the later source exited meanwhile, or exited and re-entered, or the same transition dispatched again, or a
-  transition into a sibling region).  The full statement stays visible (`C02_step_full`), `C02_step_partial` carries
-  the exclusion "at most one transition executes per event" as a bound on the ghost counter `maxExec`, and
-  `C02_step_counterexample` refutes the full statement on a concrete machine.
+  The model follows the REPAIRED code (fix: commits bcc5ea7, 603ad02, 09ede92, 2725aeb, 4e63890 in /repo): a state that an
+  earlier transition of the same event exited gets no turn, an event declared inside a state is offered to that scope
+  once, scope-relative destinations.  What is still false: "no state is entered and afterwards exited within the
+  processing of one event" fails when two transitions of one event execute from sources that both stay active and the
+  later one targets (an ancestor in) the region the earlier one changed — the library has no conflict resolution between
+  regions (open findings F-C02-ete-cross-region-*) — and, with events declared inside state definitions, when the
+  separate passes per scope let related states execute (F-C02-ete-related-sources-local).  The full statement stays
+  visible (`C02_step_full`); it is refuted on a concrete machine (`C02_step_counterexample`, two regions, the second
+  transition re-enters the region the first one just re-entered) and proved under the exclusions
+    * `C02_step_global`: machine-level declarations — every executing transition keeps its destination inside the branch
+      of its source wherever an ancestor of the source (or the machine) has two or more active children (`regionOK`);
+    * `C02_step_regions`: any declarations — every executing transition is local at its moment (`localRef`: the region
+      condition, and its source is active, was not entered during this event, nothing below it was entered during it);
+    * `C02_step_partial` / `C02_step_clean`: at most one transition executes per event; `C02_step_exclusive`: no parallel
+      state is active.
+  The closed defects are regression examples now (`c02Stale`: the second transition no longer fires).
 -/
 import Proofs.C02
 import Proofs.C02RoundTrip
 import Proofs.C02Project
 import Proofs.C02Q
 import Proofs.C02Regions
+import Proofs.C02Global
 
 namespace TM
 open C02
@@ -102,13 +113,15 @@ def C02_step_full : Prop :=
   (napiTrigger sub sc cfg qmax ev s).state? = some s' →
   ∃ seg, s'.glog = s.glog ++ seg ∧ (grun cfg g seg).clean = true
 
-/-! #### the witness: two regions, the first transition leaves the parallel state, the second one — of the same
-event, its source no longer active — fires nevertheless and exits the state just entered (DESIGN 6, item 7) -/
+/-! #### the witness: two regions `a`, `b` of the parallel state `P`; `P_a_a1 → P_a` re-enters region `a`, then
+`P_b_b1 → P_a` — of the same event, its source `b1` active all the time — exits and re-enters `a` again: `P_a`, `P_a_a1`
+are entered and afterwards exited within one event (no conflict resolution between regions) -/
 
 def c02Leaf (n : Nat) : SDef := { name := n }
 
 /-- `P`(1) parallel [`a`(2) ⊃ `a1`(3);  `b`(4) ⊃ `b1`(5), `b2`(6)], `Q`(7);
-event 0: `P_a_a1 → Q` and `P_b_b1 → P_b_b2`, both declared on the machine -/
+event 0: `P_a_a1 → Q` and `P_b_b1 → P_b_b2`, both declared on the machine — the witness of the CLOSED finding
+(stale source): after the repair the second transition no longer fires -/
 def c02Stale : NCfg :=
   { states := .cons { name := 1, initial := [2, 4] }
       (.cons { name := 2, initial := [3] } (.cons (c02Leaf 3) .nil .nil)
@@ -117,35 +130,49 @@ def c02Stale : NCfg :=
     events := [(0, [{ source := [1, 2, 3], dest := some [7] }, { source := [1, 4, 5], dest := some [1, 4, 6] }])],
     initial := [1] }
 
+/-- same tree; event 0: `P_a_a1 → P_a` and `P_b_b1 → P_a` -/
+def c02Cross : NCfg :=
+  { c02Stale with events := [(0, [{ source := [1, 2, 3], dest := some [1, 2] }, { source := [1, 4, 5], dest := some [1, 2] }])] }
+
 def c02Script : Script := fun _ _ => {}
 def c02Sub : NSub := fun _ s => .ok () s
 
-example : c02Stale.states.WF = true := by decide
+example : c02Cross.states.WF = true := by decide
 example : NoRaise c02Script := fun _ _ => ⟨true, rfl⟩
 example : NoCmds c02Script := fun _ _ => rfl
 
-/-- the run: initial configuration `[P_a_a1, P_b_b1]`, one trigger of event 0; afterwards the configuration is
-`P_b_b2` alone, `Q` was entered and exited within the event, and the ghost says so -/
-theorem C02_step_counterexample_run :
+/-- regression (closed finding, bcc5ea7): `[P_a_a1, P_b_b1]` --0--> `Q`; only the first transition executes, the
+ghost is clean -/
+theorem C02_regression_stale_source :
     ((NSt.init c02Stale).bind fun s0 => ((napiTrigger c02Sub c02Script c02Stale 4 0 s0).state?).map fun s =>
+      (buildStateList [] s.conf, (grun c02Stale (G.init c02Stale s0.conf) s.glog).maxExec,
+       (grun c02Stale (G.init c02Stale s0.conf) s.glog).clean))
+    = some (.name [7], 1, true) := by decide
+
+/-- the run of the open finding: the configuration is `[P_a_a1, P_b_b1]` again, two transitions executed, states
+were entered and exited within the event, the exiting transition's source was active (`eteActive`) -/
+theorem C02_step_counterexample_run :
+    ((NSt.init c02Cross).bind fun s0 => ((napiTrigger c02Sub c02Script c02Cross 4 0 s0).state?).map fun s =>
       (buildStateList [] s0.conf, buildStateList [] s.conf,
-       (grun c02Stale (G.init c02Stale s0.conf) s.glog).enteredThenExited,
-       (grun c02Stale (G.init c02Stale s0.conf) s.glog).eteStale))
-    = some (.cons (.name [1, 2, 3]) (.cons (.name [1, 4, 5]) .nil), .name [1, 4, 6], true, true) := by decide
+       (grun c02Cross (G.init c02Cross s0.conf) s.glog).enteredThenExited,
+       (grun c02Cross (G.init c02Cross s0.conf) s.glog).eteActive,
+       (grun c02Cross (G.init c02Cross s0.conf) s.glog).maxExec))
+    = some (.cons (.name [1, 2, 3]) (.cons (.name [1, 4, 5]) .nil),
+            .cons (.name [1, 2, 3]) (.cons (.name [1, 4, 5]) .nil), true, true, 2) := by decide
 
 theorem C02_step_counterexample : ¬ C02_step_full := by
   intro hfull
-  cases h0 : NSt.init c02Stale with
+  cases h0 : NSt.init c02Cross with
   | none => revert h0; decide
   | some s0 =>
-    cases h1 : (napiTrigger c02Sub c02Script c02Stale 4 0 s0).state? with
+    cases h1 : (napiTrigger c02Sub c02Script c02Cross 4 0 s0).state? with
     | none =>
       have := C02_step_counterexample_run
       simp [h0, h1] at this
     | some s1 =>
-      obtain ⟨hI, hcl⟩ := C02_init c02Stale (by decide) s0 h0
-      obtain ⟨seg, hl, hc⟩ := hfull c02Stale (by decide) c02Sub c02Script (fun _ _ => ⟨true, rfl⟩) (fun _ _ => rfl)
-        4 0 s0 s1 (G.init c02Stale s0.conf) hI hcl h1
+      obtain ⟨hI, hcl⟩ := C02_init c02Cross (by decide) s0 h0
+      obtain ⟨seg, hl, hc⟩ := hfull c02Cross (by decide) c02Sub c02Script (fun _ _ => ⟨true, rfl⟩) (fun _ _ => rfl)
+        4 0 s0 s1 (G.init c02Cross s0.conf) hI hcl h1
       have hg0 : s0.glog = [] := by
         simp only [NSt.init, Option.map_eq_some_iff] at h0
         obtain ⟨f, _, rfl⟩ := h0; rfl
@@ -264,13 +291,12 @@ theorem C02_step_exclusive (cfg : NCfg) (hwf : cfg.states.WF = true) (sub : NSub
 /-! ### the sharp exclusion: transitions that are not local when they execute -/
 
 /-- **one trigger call, sharp form.**  A transition is LOCAL at the moment it executes (`localRef`, decidable on the
-ghost state): it is declared on the machine, its source is active and was not entered during the current event,
+ghost state): it is its source is active and was not entered during the current event,
 nothing below its source was entered during the current event, and wherever an ancestor of the source (or the machine)
 has two or more active children the destination lies in the same child's branch as the source.  "Entered and
 afterwards exited within one event" can only rise if some transition that executes is NOT local at that moment
-(`nonLocalRun`) — which is exactly what the four open findings are: the source exited meanwhile, exited and
-re-entered, the same locally declared transition dispatched again, a destination in a sibling region.  Any number of
-transitions may execute in the event. -/
+(`nonLocalRun`), for transitions declared on the machine or inside state definitions alike.  Any number of transitions
+may execute in the event. -/
 theorem C02_step_regions (cfg : NCfg) (hwf : cfg.states.WF = true) (sub : NSub) (sc : Script)
     (hR : NoRaise sc) (hC : NoCmds sc) (qmax ev : Nat) (s s' : NSt) (g : G) (hI : GI2 cfg g s.conf)
     (h : (napiTrigger sub sc cfg qmax ev s).state? = some s') :
@@ -278,6 +304,35 @@ theorem C02_step_regions (cfg : NCfg) (hwf : cfg.states.WF = true) (sub : NSub) 
       ((grun cfg g seg).enteredThenExited = true → g.enteredThenExited = true ∨ nonLocalRun cfg g seg = true) := by
   obtain ⟨seg, hl, hc⟩ := frame_apiTrigger2 cfg sub sc (RInv2 cfg) hR hC (rinv2_closed sub sc cfg hwf hR hC) qmax ev s s' h
   exact ⟨seg, hl, hc g hI⟩
+
+/-- **one trigger call on a machine whose transitions are all declared on the machine — the statement up to the one
+remaining open finding.**  Unqueued machine, ghost state between events: "entered and afterwards exited within one
+event" can only rise if some transition that executes violates the REGION CONDITION at that moment (`nonRegionRun`,
+`regionOK`): an ancestor of its source (or the machine) has two or more active children and its destination lies outside
+the source's branch — i.e. the transition targets (an ancestor in) another region.  That its source is active, was not
+exited or entered during the event, and that nothing below it was entered during the event is PROVED for every
+transition the repaired dispatch executes (`nonLocal_imp_nonRegion`), it is no longer an exclusion. -/
+theorem C02_step_global (cfg : NCfg) (hwf : cfg.states.WF = true) (sub : NSub) (sc : Script)
+    (hR : NoRaise sc) (hC : NoCmds sc) (hq : cfg.queued = false) (hno : cfg.states.noEvents = true)
+    (hkeys : (cfg.events.map (·.1)).Nodup)
+    (qmax ev : Nat) (s s' : NSt) (g : G) (hI : GI2 cfg g s.conf) (hidle : s.queue = [])
+    (hent : g.entered = []) (hexi : g.exited = [])
+    (h : (napiTrigger sub sc cfg qmax ev s).state? = some s') :
+    ∃ seg, s'.glog = s.glog ++ seg ∧ GI2 cfg (grun cfg g seg) s'.conf ∧ (grun cfg g seg).core = g.core ∧
+      ((grun cfg g seg).enteredThenExited = true → g.enteredThenExited = true ∨ nonRegionRun cfg g seg = true) := by
+  obtain ⟨seg, hl, hi, hcore, hete⟩ := C02_step_regions cfg hwf sub sc hR hC qmax ev s s' g hI h
+  obtain ⟨seg', hl', himp⟩ := nonLocal_imp_nonRegion cfg hwf sub sc hR hC hq hno hkeys qmax ev s s' g hI hidle hent hexi h
+  have hss : seg' = seg := List.append_cancel_left (hl'.symm.trans hl)
+  subst hss
+  refine ⟨seg', hl, hi, hcore, fun hx => ?_⟩
+  rcases hete hx with h1 | h1
+  · exact Or.inl h1
+  · exact Or.inr (himp h1)
+
+/-- the witness `c02Cross` violates the region condition (and only then can the flag rise); the two-region machine
+`c02Regions` below does not -/
+example : ((NSt.init c02Cross).bind fun s0 => ((napiTrigger c02Sub c02Script c02Cross 4 0 s0).state?).map fun s =>
+      nonRegionRun c02Cross (G.init c02Cross s0.conf) s.glog) = some true := by decide
 
 /-- **every history, sharp form**: the ghost is clean after any history in which every executing transition was
 local at its moment -/
@@ -315,7 +370,7 @@ theorem C02_history_regions (cfg : NCfg) (hwf : cfg.states.WF = true) (sc : Scri
 
 /-- non-vacuity / sharpness: in the two-region machine below both region-local transitions execute in one event
 (`maxExec = 2`, outside `C02_step_clean`'s exclusion) and every one is local, so the ghost is clean; in the witness
-`c02Stale` the second transition is not local (its source is no longer active) -/
+`c02Cross` the second transition is not local (its destination lies in the sibling region) -/
 def c02Regions : NCfg :=
   { c02Stale with events := [(0, [{ source := [1, 2, 3], dest := some [1, 2] }, { source := [1, 4, 5], dest := some [1, 4, 6] }])] }
 
@@ -325,8 +380,8 @@ example : ((NSt.init c02Regions).bind fun s0 => (nrunHistory c02Script c02Region
        (grun c02Regions (G.init c02Regions s0.conf) s.glog).clean))
     = some (.cons (.name [1, 2, 3]) (.cons (.name [1, 4, 6]) .nil), 2, false, true) := by decide
 
-example : ((NSt.init c02Stale).bind fun s0 => (nrunHistory c02Script c02Stale 8 2 [0] s0).map fun s =>
-      nonLocalRun c02Stale (G.init c02Stale s0.conf) s.glog) = some true := by decide
+example : ((NSt.init c02Cross).bind fun s0 => (nrunHistory c02Script c02Cross 8 2 [0] s0).map fun s =>
+      nonLocalRun c02Cross (G.init c02Cross s0.conf) s.glog) = some true := by decide
 
 /-! ### order of exits and enters, closure of the entered part -/
 
